@@ -22,6 +22,10 @@ pub struct Case {
     pub cfg: CfgBits,
     pub ops: Vec<Op>,
     pub ambient: Ambient,
+    /// run the history on a thread with std's default 2 MiB stack (deep-nesting inputs: an overflow
+    /// inside emit / GC kills the worker and is attributed to this case by the driver)
+    #[serde(default)]
+    pub small_stack: bool,
 }
 
 fn draw_name(rng: &mut Rng) -> Option<String> {
@@ -101,7 +105,34 @@ impl Prop for C02 {
         }
     }
 
-    fn plan(&self, env: &Env, _index: u64, rng: &mut Rng) -> Value {
+    fn crash_is_violation(&self) -> bool {
+        true
+    }
+
+    fn plan(&self, env: &Env, index: u64, rng: &mut Rng) -> Value {
+        if index % 211 == 7 {
+            // deeply nested but VALID control flow: emission (and GC) must not recurse on the nesting depth
+            let depth = *rng.pick(&[5_000u32, 20_000, 30_000, 40_000, 43_000]);
+            let kind = rng.below(5) as u8;
+            let b = crate::faults::nest_bomb(depth, kind);
+            let mut ops = vec![];
+            if rng.bool() {
+                ops.push(Op::Gc);
+            }
+            ops.push(Op::Emit);
+            if rng.bool() {
+                ops.push(Op::Query);
+                ops.push(Op::Emit);
+            }
+            let case = Case {
+                input: inputs::input_ref(&format!("nest-bomb:{}:{}", depth, kind), &b),
+                cfg: CfgBits::walrus_default(),
+                ops,
+                ambient: Ambient { entropy: rng.u64(), arena_burn: 0, heap_pad: 0 },
+                small_stack: true,
+            };
+            return serde_json::to_value(case).unwrap();
+        }
         let picked = inputs::pick(env, rng, &Mix { fixture: 40, dodrio: if env.tier == Tier::Quick { 0 } else { 1 }, generated: 60, max_funcs: 24, valid_only: true });
         let picked = inputs::maybe_attach_dwarf(picked, rng, 1, 6);
         let (has, synth) = inputs::debug_status(&picked.iref.source, &picked.bytes);
@@ -135,7 +166,7 @@ impl Prop for C02 {
             ops.push(Op::Gc);
         }
         ops.push(Op::Emit);
-        let case = Case { input: picked.iref, cfg, ops, ambient: Ambient { entropy: rng.u64(), arena_burn: *rng.pick(&[0u32, 0, 3]), heap_pad: 0 } };
+        let case = Case { input: picked.iref, cfg, ops, ambient: Ambient { entropy: rng.u64(), arena_burn: *rng.pick(&[0u32, 0, 3]), heap_pad: 0 }, small_stack: false };
         serde_json::to_value(case).unwrap()
     }
 
@@ -149,7 +180,10 @@ impl Prop for C02 {
             }
         };
         let input = inputs::bytes_of(&case.input);
-        let ran = life::run_ser(env, &input, &case.cfg, &case.ops, &case.ambient, prng::fnv(&input));
+        if case.small_stack {
+            out.hit("deep_nesting_on_2mib_stack");
+        }
+        let ran = life::run_ser_stack(env, &input, &case.cfg, &case.ops, &case.ambient, prng::fnv(&input), if case.small_stack { 2 << 20 } else { 16 << 20 });
         let Some(t) = ran.transcript else {
             out.harness_error = Some(format!("run did not complete: {:?}", ran.abort));
             return out;
